@@ -80,10 +80,12 @@ def run_query(build, query, config):
 
 
 def compare(ctx, tag, config, pairs, dist, ref, must, may, kind, describe):
+    """pairs / distances of one query against the reference matrix
+    (vectorised: big cases have millions of pairs)"""
     nb, nq = ref.shape
     pairs = np.asarray(pairs)
     if pairs.size == 0:
-        got = []
+        pb = pq = np.zeros(0, dtype=int)
     else:
         ctx.check(pairs.ndim == 2 and pairs.shape[0] == 2,
                   "pairs/shape" + tag,
@@ -92,39 +94,48 @@ def compare(ctx, tag, config, pairs, dist, ref, must, may, kind, describe):
             return
         ctx.check(np.issubdtype(pairs.dtype, np.integer), "pairs/dtype" + tag,
                   lambda: "pairs has dtype %r\n%s" % (pairs.dtype, describe()))
-        got = [(int(b), int(q)) for b, q in zip(pairs[0], pairs[1])]
-    bad = [p for p in got if not (0 <= p[0] < nb and 0 <= p[1] < nq)]
-    ctx.check(not bad, "pairs/index-out-of-range" + tag, lambda: (
+        if not np.issubdtype(pairs.dtype, np.integer):
+            return
+        pb, pq = pairs[0].astype(np.int64), pairs[1].astype(np.int64)
+    bad = (pb < 0) | (pb >= nb) | (pq < 0) | (pq >= nq)
+    ctx.check(not bad.any(), "pairs/index-out-of-range" + tag, lambda: (
         "pairs outside %d build x %d query points: %r\n%s"
-        % (nb, nq, bad[:10], describe())))
-    if bad:
+        % (nb, nq, list(zip(pb[bad][:10].tolist(), pq[bad][:10].tolist())),
+           describe())))
+    if bad.any():
         return
-    gset = set(got)
-    ctx.check(len(gset) == len(got), "pairs/duplicates" + tag, lambda: (
-        "%d pairs, %d distinct\n%s" % (len(got), len(gset), describe())))
-    missing = [p for p in zip(*np.nonzero(must)) if (int(p[0]), int(p[1]))
-               not in gset]
-    extra = [p for p in got if not may[p]]
-    ctx.check(not missing and not extra, "pairs/wrong-set" + tag, lambda: (
+    lin = pb * nq + pq
+    ndist = np.unique(lin).size
+    ctx.check(ndist == lin.size, "pairs/duplicates" + tag, lambda: (
+        "%d pairs, %d distinct\n%s" % (lin.size, ndist, describe())))
+    hit = np.zeros((nb, nq), dtype=bool)
+    hit[pb, pq] = True
+    missing = must & ~hit
+    extra = hit & ~may
+    wrong = bool(missing.any() or extra.any())
+    ctx.check(not wrong, "pairs/wrong-set" + tag, lambda: (
         "missing (build, query) pairs %r, unexpected pairs %r\n%s" % (
-            [(int(a), int(b), float(ref[a, b])) for a, b in missing[:8]],
-            [(a, b, float(ref[a, b])) for a, b in extra[:8]], describe())))
-    if dist is None or missing or extra:
+            [(int(a), int(b), float(ref[a, b]))
+             for a, b in list(zip(*np.nonzero(missing)))[:8]],
+            [(int(a), int(b), float(ref[a, b]))
+             for a, b in list(zip(*np.nonzero(extra)))[:8]], describe())))
+    if dist is None or wrong:
         return
     dist = np.asarray(dist)
-    ctx.check(dist.shape == (len(got),), "distances/shape" + tag, lambda: (
+    ctx.check(dist.shape == (lin.size,), "distances/shape" + tag, lambda: (
         "distances has shape %r for %d pairs\n%s"
-        % (dist.shape, len(got), describe())))
-    if dist.shape != (len(got),) or not got:
+        % (dist.shape, lin.size, describe())))
+    if dist.shape != (lin.size,) or not lin.size:
         return
-    want = np.array([ref[p] for p in got], dtype=S.LD)
+    want = ref[pb, pq]
     tol = S.value_tol_km(want, kind)
     err = np.abs(dist.astype(S.LD) - want)
-    worst = int(np.argmax(err - tol))
-    ctx.check(bool(np.all(err <= tol)), "distances/wrong-value" + tag, lambda: (
+    ok = err <= tol
+    ctx.check(bool(ok.all()), "distances/wrong-value" + tag, lambda: (
         "pair %r: distance %.12g km, reference %.12g km (tolerance %.3g)\n%s"
-        % (got[worst], float(dist[worst]), float(want[worst]),
-           float(tol[worst]), describe())))
+        % ((int(pb[np.argmin(ok)]), int(pq[np.argmin(ok)])),
+           float(dist[np.argmin(ok)]), float(want[np.argmin(ok)]),
+           float(tol[np.argmin(ok)]), describe())))
 
 
 def check_query(case, ctx):
@@ -309,7 +320,7 @@ def query_cases(draw, tier="quick", big=False):
     kind = "arc" if metric == "haversine" else "chord"
     if big:
         tile = {"copies": [(2, 13), (1, 13)] if tier == "quick"
-                else [(2, 125), (1, 10)]}
+                else [(2, 125), (1, 4)]}
         sizes = [(10, 40), (1, 12)]
     else:
         tile = draw(st.sampled_from([None, None, None, {"copies": (1, 4)}]))
